@@ -41,6 +41,7 @@ Fixpoint rmdir_parents (fuel : nat) (p : list N) : M unit :=
       | None => mret tt
       | Some [] => mret tt
       | Some d =>
+          if str_eqb d [46%N] then mret tt else      (* "." is where the run stands: never removed *)
           let! r := perform (ORmdir d) in
           match r with
           | None => rmdir_parents f d
